@@ -437,7 +437,9 @@ bad = []
 torch.manual_seed(0)
 samples = {"random": torch.randn(50, dtype=torch.float64) * 0.3 + 2.0, "ties": T([1.0, 1.0, 2.0, 2.0, 3.0]), "constant": torch.full((7,), 2.0, dtype=torch.float64),
            "two-columns": torch.rand(30, 2, dtype=torch.float64) + 1.0}
-for name, crit in (("entropic_risk", pnn.EntropicRiskMeasure(2.0)), ("entropic_loss", pnn.EntropicLoss(2.0)), ("expected_shortfall", pnn.ExpectedShortfall(0.3)), ("isoelastic", pnn.IsoelasticLoss(0.5))):
+class RiskSeeking(HedgeLoss):            # user criterion on the default search: minus the mean of a CONVEX increasing utility, cash = log E exp(x) >= mean
+    def forward(self, input, target=0.0): return -(input - target).exp().mean(0)
+for name, crit in (("entropic_risk", pnn.EntropicRiskMeasure(2.0)), ("entropic_loss", pnn.EntropicLoss(2.0)), ("expected_shortfall", pnn.ExpectedShortfall(0.3)), ("isoelastic", pnn.IsoelasticLoss(0.5)), ("user: risk seeking", RiskSeeking())):
     for sname, x in samples.items():
         try:
             c = crit.cash(x)
@@ -452,16 +454,21 @@ result = {"got": [str(b) for b in bad], "ref": []}
 
 def _replay_cash():
     r = real_exec(CASH_REPLAY, {}, timeout=300)
-    ok = r.get('ok') and r['result']['got'] == []
-    return {'real': r, 'confirmed': not ok, 'note': 'replay: criterion(constant cash) == criterion(sample), min <= cash <= max on random / tied / constant / two-column samples'}
+    # the default search on a constant sample / a sample with trailing dimensions is the recorded finding D8 (its own obligation): not counted as confirmation here
+    d8 = lambda b: (b.startswith("('isoelastic'") or b.startswith("('user: risk seeking'")) and ("'constant'" in b or "'two-columns'" in b)
+    ok = r.get('ok') and [b for b in r['result']['got'] if not d8(b)] == []
+    return {'real': r, 'confirmed': not ok, 'note': 'replay: criterion(constant cash) == criterion(sample), min <= cash <= max on random / tied / constant / two-column samples, incl. a risk-seeking user criterion on the default search (entries of finding D8 ignored)'}
 
 
 CASH_TARGET_REPLAY = '''
 import pfhedge.nn as pnn
+from pfhedge.nn.modules.loss import HedgeLoss
+class RiskSeeking(HedgeLoss):            # user criterion on the default search: minus the mean of a CONVEX increasing utility, cash = log E exp(x) >= mean
+    def forward(self, input, target=0.0): return -(input - target).exp().mean(0)
 bad = []
 torch.manual_seed(1)
 x = torch.rand(40, dtype=torch.float64) + 3.0
-for crit in (pnn.IsoelasticLoss(0.5), pnn.IsoelasticLoss(1.0)):
+for crit in (pnn.IsoelasticLoss(0.5), pnn.IsoelasticLoss(1.0), RiskSeeking()):
     for tgt in (0.0, 0.05, 2.5, torch.rand(40, dtype=torch.float64) * 2):
         c = crit.cash(x, tgt)
         pl = x - tgt
@@ -474,7 +481,7 @@ result = {"got": [str(b) for b in bad], "ref": []}
 def _replay_cash_target():
     r = real_exec(CASH_TARGET_REPLAY, {}, timeout=300)
     ok = r.get('ok') and r['result']['got'] == []
-    return {'real': r, 'confirmed': not ok, 'note': 'replay: default cash() with non-zero scalar and tensor targets'}
+    return {'real': r, 'confirmed': not ok, 'note': 'replay: default cash() (isoelastic losses and a risk-seeking user criterion) with zero, scalar and tensor targets'}
 
 
 def cash_obs():
@@ -500,7 +507,7 @@ def cash_obs():
                 lc, lx, cash = res
                 m = p.ctx.fresh('m', 'I')
                 return [('criterion(constant cash) == criterion(x - target)', [tm.le(tm.IZERO, m), tm.lt(m, M)], lc.at((m,)), lx.at((m,)))]
-            cs = fc.Case(run, hyps=hy, ensures=ens, real_snippet=CASH_REPLAY.replace('result = {"got": [str(b) for b in bad], "ref": []}', 'result = {"got": [str(b) for b in bad if b[0] != "isoelastic"], "ref": []}'))
+            cs = fc.Case(run, hyps=hy, ensures=ens, real_snippet=CASH_REPLAY.replace('result = {"got": [str(b) for b in bad], "ref": []}', 'result = {"got": [str(b) for b in bad if b[0] not in ("isoelastic", "user: risk seeking")], "ref": []}'))
             cs.battery = True
             return cs
         return build
@@ -639,6 +646,37 @@ def cash_obs():
     return obs
 
 
+PRICE_REPLAY = '''
+import pfhedge.nn as pnn
+from pfhedge.instruments import BrownianStock, EuropeanOption
+bad = []
+for n_times in (1, 2):
+    for crit in (pnn.EntropicRiskMeasure(1.0), pnn.ExpectedShortfall(0.2)):
+        d = EuropeanOption(BrownianStock(sigma=0.3, dt=0.01, cost=1e-3), strike=0.98, maturity=0.05)
+        d.add_clause("cap and fee", lambda dd, payoff: payoff.clamp(max=0.03) + 0.01)
+        torch.manual_seed(2)
+        hedger = pnn.Hedger(torch.nn.Sequential(torch.nn.Linear(2, 1), torch.nn.Tanh()), ["log_moneyness", "time_to_maturity"], criterion=crit)
+        torch.manual_seed(4)
+        got = hedger.price(d, n_paths=60, n_times=n_times, init_state=(1.1,))
+        torch.manual_seed(4)
+        vals = []
+        with torch.no_grad():
+            for _ in range(n_times):
+                d.simulate(n_paths=60, init_state=(1.1,))
+                vals.append(-crit.cash(hedger.compute_portfolio(d), target=d.payoff()))
+        ref = sum(vals) / n_times
+        if got.requires_grad: bad.append((n_times, type(crit).__name__, "price carries a graph"))
+        if not torch.allclose(got, ref, atol=1e-7): bad.append((n_times, type(crit).__name__, "price %.6f, minus the cash of (portfolio, target = payoff with clauses) %.6f" % (float(got), float(ref))))
+result = {"got": [str(b) for b in bad], "ref": []}
+'''
+
+
+def _replay_price():
+    r = real_exec(PRICE_REPLAY, {}, timeout=300)
+    ok = r.get('ok') and r['result']['got'] == []
+    return {'real': r, 'confirmed': not ok, 'note': 'replay: Hedger.price vs an explicit simulate / compute_portfolio / cash(target = payoff()) loop under the same seed: payoff clause, transaction cost, init_state, n_times in {1,2}'}
+
+
 def price_obs():
     """Hedger.price == -mean_k cash(portfolio, target=payoff) on fresh paths, no graph."""
     def check():
@@ -687,7 +725,7 @@ def price_obs():
                       and fc.prove_eq(facts, tgt.at((n,)), payoff.at((n,)), timeout_ms=20000).status == 'unsat')
                 if not ok:
                     return Verdict('refuted', 'z3 + ghost events', time.time() - t0, 'price(n_times=%d): %d cash calls, %d simulations, grad modes %s, value %s' % (n_times, len(cs), len(sims), [g for _, _, g in cs], tm.show(r.at(()))[:200]),
-                                   witness={'n_times': n_times}, replay={'confirmed': False})
+                                   witness={'n_times': n_times}, replay=_replay_price())
         finally:
             Hh._set_T(old)
         return Verdict('proved', 'z3 + ghost events', time.time() - t0, '', sample={'claim': 'price == -mean over n_times of criterion.cash(compute_portfolio, target=payoff with clauses) on freshly simulated paths, without a graph'})
